@@ -31,7 +31,7 @@ def enclosed_rules(facts, rep):
     inv = {n: v for v, n in tab.items()}
     ok &= rep.check(set(inv) == {"Prefix", "RootDir", "CurDir", "ParentDir", "Normal"}, rule, "component-kinds", where(f, f.span),
                     "five component kinds", "std::path::Component has variants %s" % sorted(inv))
-    ps = paths(f, max_loop=1)
+    ps = paths(f, max_loop=2)       # two trips: "Normal, then ParentDir, then go on" must be observable
     rep.count("paths", len(ps))
     A_NUL = r"str::contains\(self\.file_name, 0\)"
     A_NEXT = r"^discr\(Iterator::next\("
@@ -58,39 +58,44 @@ def enclosed_rules(facts, rep):
         if decided(p, A_NUL) != 0:
             continue
         d = [x for x in p["decisions"]]
-        # first iteration = decisions before the first '#iter'
-        first = []
+        # one segment per trip round the loop (the path engine folds constants, so in an iteration where the depth is known --
+        # the first one, or the one after a single Normal -- the underflow test is already decided and leaves no atom behind)
+        segs, cur = [], []
         for a, v in d:
             if a == "#iter":
-                break
-            first.append((a, v))
-        nxt = [v for a, v in first if re.search(A_NEXT, a)]
-        comp = [v for a, v in first if re.search(A_COMP, a)]
-        sub = [v for a, v in first if re.search(A_SUB, a)] + [(1 if v == 0 else 0) for a, v in first if re.search(A_DEPTH0, a)]
-        continues = any(a == "#iter" for a, v in d)
-        if nxt == [0]:
-            o = outcome(p)
-            good = o[0] == "Some" and o[1] is not None and ".file_name" in tokens(o[1]) and not any(x[0] == "call" and not re.search(r"Path::new$|Deref|AsRef", x[1]) for x in walk(o[1]))
-            ok &= rep.check(good, rule, "exhausted=>Some(name)", where(f, f.span), "all components accepted: returns the unmodified name as a path",
-                            "after the walk enclosed_name returns %s, not the entry's own name" % (show(o[1]) if len(o) > 1 and o[1] else o,))
-            continue
-        if not comp:
-            continue
-        kind = tab.get(comp[0], comp[0])
-        o = outcome(p)
-        if kind in ("Prefix", "RootDir"):
-            good = (not continues) and o[0] == "None"
-            seen.setdefault(kind, []).append(good)
-        elif kind == "ParentDir":
-            if sub == [1]:
-                good = (not continues) and o[0] in ("None", "ErrProp")
-                seen.setdefault("ParentDir:underflow", []).append(good)
-            elif sub == [0]:
-                seen.setdefault("ParentDir:ok", []).append(continues or o[0] == "Some")
+                segs.append(cur)
+                cur = []
             else:
-                seen.setdefault("ParentDir:ok", []).append(False)
-        elif kind in ("Normal", "CurDir"):
-            seen.setdefault(kind, []).append((continues or o[0] == "Some") and not sub)
+                cur.append((a, v))
+        segs.append(cur)
+        o = outcome(p)
+        for si_, first in enumerate(segs):
+            last_seg = si_ == len(segs) - 1
+            nxt = [v for a, v in first if re.search(A_NEXT, a)]
+            comp = [v for a, v in first if re.search(A_COMP, a)]
+            sub = [v for a, v in first if re.search(A_SUB, a)] + [(1 if v == 0 else 0) for a, v in first if re.search(A_DEPTH0, a)]
+            continues = not last_seg
+            if nxt == [0]:
+                good = o[0] == "Some" and o[1] is not None and ".file_name" in tokens(o[1]) and not any(x[0] == "call" and not re.search(r"Path::new$|Deref|AsRef", x[1]) for x in walk(o[1]))
+                ok &= rep.check(good, rule, "exhausted=>Some(name)", where(f, f.span), "all components accepted: returns the unmodified name as a path",
+                                "after the walk enclosed_name returns %s, not the entry's own name" % (show(o[1]) if len(o) > 1 and o[1] else o,))
+                continue
+            if not comp:
+                continue
+            kind = tab.get(comp[0], comp[0])
+            if kind in ("Prefix", "RootDir"):
+                good = (not continues) and o[0] == "None"
+                seen.setdefault(kind, []).append(good)
+            elif kind == "ParentDir":
+                rejected = (not continues) and o[0] in ("None", "ErrProp")
+                if sub == [1] or (not sub and rejected):
+                    seen.setdefault("ParentDir:underflow", []).append(rejected)
+                elif sub == [0] or (not sub and not rejected):
+                    seen.setdefault("ParentDir:ok", []).append(continues or o[0] == "Some")
+                else:
+                    seen.setdefault("ParentDir:ok", []).append(False)
+            elif kind in ("Normal", "CurDir"):
+                seen.setdefault(kind, []).append((continues or o[0] == "Some") and not sub)
     for kind, want in (("Prefix", "rejects (None)"), ("RootDir", "rejects (None)"), ("ParentDir:underflow", "depth.checked_sub(1) == None rejects"),
                        ("ParentDir:ok", "continues with depth - 1"), ("Normal", "continues"), ("CurDir", "continues")):
         vals = seen.get(kind)
@@ -123,7 +128,19 @@ def enclosed_rules(facts, rep):
                 ups[0][1][2][1][0] == "const" and ups[0][1][2][1][2] == 1
             if not good and len(ups) == 1 and ups[0][0] == "bin" and ups[0][1] == "Sub" and ups[0][3] == ("const", "usize", 1):
                 # unchecked decrement: sound only behind the explicit zero test (every ParentDir path is then classified by kind:ParentDir:*)
-                guarded = [p for p in ps if any(re.search(A_DEPTH0, a) for a, v in p["decisions"])]
+                from engine.intervals import dominating_facts
+                ub = [b for b in sorted(arms.get(v, set())) for s_ in f.blocks[b]["stmts"] if s_["k"] == "assign" and s_["place"]["l"] == dl and not s_["place"]["p"]]
+                from engine.intervals import edge_facts
+                from engine.paths import _cmp_var
+                guarded = []
+                dom = f.dominators()
+                for sb_ in sorted(dom.get(ub[0], ())) if ub else []:
+                    t_ = f.term(sb_)
+                    if sb_ == ub[0] or not t_ or t_["k"] != "switch" or _cmp_var(f, sb_, t_) != f.locals[dl].get("name"):
+                        continue
+                    reaching = [s2 for s2 in f.succ(sb_) if s2 == ub[0] or ub[0] in f.reach_from_inclusive(s2, avoid={sb_})]
+                    if len(reaching) == 1:
+                        guarded += [x for x in edge_facts(f, ex, sb_, reaching[0]) if x[0] in ("Ne", "Gt") and x[2][0] == "const" and x[2][2] == 0]
                 good = bool(guarded) and all(vals for vals in (seen.get("ParentDir:ok"), seen.get("ParentDir:underflow"))) and all(seen.get("ParentDir:ok", [False])) and all(seen.get("ParentDir:underflow", [False]))
         else:
             good = not ups
